@@ -19,5 +19,15 @@ from octacheck.inline import body_digest  # noqa: E402
 out = {m.name: {q: body_digest(f.node) for q, f in sorted(m.functions.items())} for m in p.modules.values()}
 for m in p.modules.values():
     out[m.name]["<classes>"] = " ".join(sorted(m.classes))  # classes of the pinned tree (a record class that is not listed is new)
+import ast  # noqa: E402
+
+for m in p.modules.values():
+    # module-level names of the pinned tree (a module-level constant that is not listed is new: e.g. a regex that used to be
+    # written at its use and is now compiled once at module level)
+    names = set()
+    for st in m.tree.body:
+        for t in (st.targets if isinstance(st, ast.Assign) else [st.target] if isinstance(st, (ast.AnnAssign, ast.AugAssign)) else []):
+            names |= {x.id for x in ast.walk(t) if isinstance(x, ast.Name)}
+    out[m.name]["<consts>"] = " ".join(sorted(names))
 json.dump(out, open(os.path.join(HERE, "octacheck", "known_functions.json"), "w"), indent=0, sort_keys=True)
 print(sum(len(v) for v in out.values()), "functions in", len(out), "modules")
